@@ -6,6 +6,7 @@ import Verif.Lemmas.ReaderRefine
 import Verif.Lemmas.ReaderProv
 import Verif.Lemmas.ReaderSteady
 import Verif.Lemmas.ReaderCredit
+import Verif.Lemmas.ReaderTimely
 namespace Verif
 
 /-! ## everything together: the model passes the complete judgement (`Cur.judge`) -/
@@ -15,6 +16,25 @@ structure Sim (s0 : List Resp) (cr : Credit) (c : Cur) (r : Rd) : Prop where
   abs : Abs c r
   prov : Prov s0 r
   credit : CreditInv cr r
+  hi : cr.hi + r.src.stream.length ≤ c.S.length
+  timely : TInv (min (prodToErr s0) c.S.length) c.S.length r
+
+/-- the credit the judge continues with -/
+def Credit.next (cr : Credit) (c : Cur) (op : ROp) (res : RRes RErr) : Credit :=
+  { cr.after c op with hi := max cr.hi (servedMark c op res) }
+
+theorem Credit.after_hi (cr : Credit) (c : Cur) (op : ROp) : (cr.after c op).hi = cr.hi := by
+  unfold Credit.after
+  split
+  · rfl
+  · split
+    · rfl
+    · split
+      · rfl
+      · split <;> rfl
+
+theorem CreditInv.hi_irrelevant {cr : Credit} {r : Rd} (h : CreditInv cr r) (x : Nat) :
+    CreditInv { cr with hi := x } r := ⟨h.all, h.plain⟩
 
 theorem Cur.step_S {ε : Type} (c c' : Cur) (op : ROp) (res : RRes ε) (h : c.step op res = .ok c') :
     c'.S = c.S := by
@@ -23,23 +43,95 @@ theorem Cur.step_S {ε : Type} (c c' : Cur) (op : ROp) (res : RRes ε) (h : c.st
 
 theorem step_judge (s0 : List Resp) (cr : Credit) (c : Cur) (r : Rd) (op : ROp)
     (h : Sim s0 cr c r) (hs : r.Small op.size) :
-    ∃ c', c.judge Facts.maxConsecutiveEmptyReads s0 cr op (r.step op).1 = .ok (c', cr.after c op) ∧
-      Sim s0 (cr.after c op) c' (r.step op).2 ∧ c'.S = c.S := by
+    ∃ c', c.judge Facts.maxConsecutiveEmptyReads s0 cr op (r.step op).1
+            = .ok (c', cr.next c op (r.step op).1) ∧
+      Sim s0 (cr.next c op (r.step op).1) c' (r.step op).2 ∧ c'.S = c.S := by
   obtain ⟨c', hc', habs'⟩ := step_refines c r op h.abs hs
   obtain ⟨hprov', hallowed⟩ := step_prov s0 r op h.abs.inv hs h.prov
   obtain ⟨hcred', hlive⟩ := step_credit cr c r op h.abs hs h.credit
-  refine ⟨c', ?_, ⟨habs', hprov', hcred'⟩, Cur.step_S _ _ _ _ hc'⟩
-  unfold Cur.judge
-  rw [hc']
-  simp only []
-  have hlv : (cr.must c op && !liveOk c op (r.step op).1) = false := by
-    cases hm : cr.must c op with
-    | false => simp
-    | true => simp [hlive hm]
-  split
-  · rename_i e he
-    simp [hallowed e he, hlv]
-  · simp [hlv]
+  have hS' := Cur.step_S _ _ _ _ hc'
+  obtain ⟨hT', hmono, hserved, hfail, hshort⟩ :=
+    step_marks _ c c' r op h.abs hs hc' habs' (Nat.min_le_right _ _) h.timely
+  have hhi := h.hi
+  have htimely : timely s0 cr c op (r.step op).1 = true := by
+    cases op with
+    | next n =>
+      cases hres : (r.step (.next n)).1 <;> simp only [timely]
+      rename_i e; cases e with
+      | none => rfl
+      | some e =>
+        by_cases hn : n < 0
+        · simp [hn]
+        · obtain ⟨h1, h2⟩ := hfail n e (Or.inl rfl) (by omega) hres
+          have := hT'.some e h2
+          simp only [hn, decide_false, Bool.false_or, Bool.and_eq_true, decide_eq_true_eq,
+            Bool.or_eq_true, beq_iff_eq]
+          refine ⟨by omega, ?_⟩
+          by_cases he : e = .noProgress
+          · exact Or.inl he
+          · exact Or.inr (by have := this he; omega)
+    | peek n =>
+      cases hres : (r.step (.peek n)).1 <;> simp only [timely]
+      rename_i e; cases e with
+      | none => rfl
+      | some e =>
+        by_cases hn : n < 0
+        · simp [hn]
+        · obtain ⟨h1, h2⟩ := hfail n e (Or.inr (Or.inl rfl)) (by omega) hres
+          have := hT'.some e h2
+          simp only [hn, decide_false, Bool.false_or, Bool.and_eq_true, decide_eq_true_eq,
+            Bool.or_eq_true, beq_iff_eq]
+          refine ⟨by omega, ?_⟩
+          by_cases he : e = .noProgress
+          · exact Or.inl he
+          · exact Or.inr (by have := this he; omega)
+    | skip n =>
+      cases hres : (r.step (.skip n)).1 <;> simp only [timely]
+      rename_i e; cases e with
+      | none => rfl
+      | some e =>
+        by_cases hn : n < 0
+        · simp [hn]
+        · obtain ⟨h1, h2⟩ := hfail n e (Or.inr (Or.inr rfl)) (by omega) hres
+          have := hT'.some e h2
+          simp only [hn, decide_false, Bool.false_or, Bool.and_eq_true, decide_eq_true_eq,
+            Bool.or_eq_true, beq_iff_eq]
+          refine ⟨by omega, ?_⟩
+          by_cases he : e = .noProgress
+          · exact Or.inl he
+          · exact Or.inr (by have := this he; omega)
+    | readBinary k =>
+      cases hres : (r.step (.readBinary k)).1 <;> simp only [timely]
+      rename_i b m e; cases e with
+      | none => rfl
+      | some e =>
+        obtain ⟨h1, h2⟩ := hshort k b m e rfl hres
+        have := hT'.some e h2
+        simp only [Bool.and_eq_true, decide_eq_true_eq, Bool.or_eq_true, beq_iff_eq]
+        refine ⟨by omega, ?_⟩
+        by_cases he : e = .noProgress
+        · exact Or.inl he
+        · exact Or.inr (by have := this he; omega)
+    | release e => cases hres : (r.step (.release e)).1 <;> simp only [timely]
+    | readLen => cases hres : (r.step .readLen).1 <;> simp only [timely]
+  refine ⟨c', ?_, ⟨habs', hprov', hcred'.hi_irrelevant _, ?_, by rw [hS']; exact hT'⟩, hS'⟩
+  · unfold Cur.judge
+    rw [hc']
+    simp only []
+    have hlv : (cr.must c op && !liveOk c op (r.step op).1) = false := by
+      cases hm : cr.must c op with
+      | false => simp
+      | true => simp [hlive hm]
+    split
+    · rename_i e he
+      simp [hallowed e he, hlv, htimely, Credit.next]
+    · simp [hlv, htimely, Credit.next]
+  · simp only [Credit.next, hS']
+    have : max cr.hi (servedMark c op (r.step op).1) + (r.step op).2.src.stream.length ≤ c.S.length := by
+      rcases Nat.le_total cr.hi (servedMark c op (r.step op).1) with hle | hle
+      · rw [Nat.max_eq_right hle]; exact hserved
+      · rw [Nat.max_eq_left hle]; omega
+    exact this
 
 /-- a request bound that does not mention the model state: stream and requests below 2^62 -/
 theorem small_of_bounds (c : Cur) (r : Rd) (n : Nat) (h : Abs c r)
